@@ -35,9 +35,19 @@ func scenC07(c *ctx) {
 	// invalid classes
 	base := b32np(c.randBytes(20)) // 32 characters, no padding
 	id := 0
+	// after every refused text, short unpadded spellings of known keys: whatever the refused call left behind
+	// (a reused normalisation buffer, say) must not change how the next, shorter text is read
+	probes := []string{"MY", "MZXQ", "MZXW6", "mzxw6yq", "MZXW6YTBOI", "me", "MFRGG", "mfrggza", "GEZDGNBVGY3TQOI"}
 	bad := func(tag, s string) {
 		id++
 		c.rec.Emit(doDecodeSecret(fmt.Sprintf("C07/bad/%s/%d", tag, id), s))
+		n := 2
+		if strings.HasPrefix(tag, "nonascii") || strings.HasPrefix(tag, "midpad") || strings.HasPrefix(tag, "digitws") {
+			n = len(probes)
+		}
+		for k := 0; k < n; k++ {
+			c.rec.Emit(doDecodeSecret(fmt.Sprintf("C07/bad/%s/%d/probe%d", tag, id, k), probes[(id+k)%len(probes)]))
+		}
 	}
 	for ch := 0; ch < 128; ch++ {
 		isAlpha := (ch >= 'A' && ch <= 'Z') || (ch >= 'a' && ch <= 'z') || (ch >= '2' && ch <= '7') || ch == '='
